@@ -137,6 +137,19 @@ theorem C06_roundtrip_needs_coherence_witness :
     dec tUserK (.obj [("pet", .obj [("name", .str "rex")])]) = .ok (.struct [.struct [.leaf (.str "rex")], .struct [.struct [.leaf (.num "0")]]]) :=
   ⟨rfl, rfl, rfl⟩
 
+/-- **C06_null_object_with_abstract_list_witness** (known finding F-02 seen through the round trip): a nullable
+    object held by value whose struct has a list of an abstract type.  `null` leaves the struct untouched (the
+    list stays nil), MarshalJSON writes `[]` for it (make(…, len(src))), decoding that gives an EMPTY list: the
+    value obtained by unmarshaling does not survive the round trip.  This is why `C06_roundtrip_model` is stated
+    for well-formed values (lists handled through json.RawMessage are never nil) and not for every decoded value. -/
+theorem C06_null_object_with_abstract_list_witness :
+    let tBox : Ty := .struct (.cons "animals" false (.slice (.iface (.cons "Dog" (.struct .nil) .nil))) .nil)
+    let t : Ty := .struct (.cons "box" false tBox .nil)
+    dec t (.obj [("box", .null)]) = .ok (.struct [.struct [.nilSlice]]) ∧
+    enc t (.struct [.struct [.nilSlice]]) = .obj [("box", .obj [("animals", .arr [])])] ∧
+    dec t (.obj [("box", .obj [("animals", .arr [])])]) = .ok (.struct [.struct [.slice []]]) :=
+  ⟨rfl, rfl, rfl⟩
+
 /-- non-vacuity of `C06_roundtrip_model`: a struct with an embedded fragment sharing a key, a list of an abstract
     type and a pointer — the decoded value is well-formed and the type has no fold twins -/
 def tDog : Ty := .struct (.cons "__typename" false (.leaf .str) (.cons "barks" false (.leaf .bool) .nil))
